@@ -38,7 +38,17 @@ pub const MODE_ZERO_OR_ERR: u32 = 8;
 /// mkdir-family calls log their path argument
 pub const MODE_PATHLOG: u32 = 16;
 
+/// ANY-mode refinement: a successful pipe2/socketpair fills its two-int out-parameter with
+/// arbitrary non-negative ints (what the kernel does), instead of leaving it untouched
+pub const MODE_FILL_OUT: u32 = 32;
+
 pub static mut MODE: u32 = MODE_ANY;
+/// executions that would issue more than this many calls are not explored (retry loops)
+pub static mut CALL_BUDGET: usize = usize::MAX;
+
+pub fn set_call_budget(n: usize) {
+    unsafe { CALL_BUDGET = n }
+}
 
 pub fn set_mode(m: u32) {
     unsafe { MODE = m }
@@ -49,6 +59,7 @@ pub fn reset() {
         TRACE_LEN = 0;
         TRACE_OVERFLOW = 0;
         MODE = MODE_ANY;
+        CALL_BUDGET = usize::MAX;
         SCRIPT_LEN = 0;
         SCRIPT_POS = 0;
         SCRIPT_UNDERRUN = 0;
@@ -396,6 +407,12 @@ fn creates_fd(n: usize) -> bool {
 
 pub unsafe fn dispatch(n: usize, args: [usize; 7], nargs: u8) -> usize {
     let mode = MODE;
+    if TRACE_LEN >= CALL_BUDGET {
+        #[cfg(kani)]
+        kani::assume(false);
+        #[cfg(not(kani))]
+        panic!("stub kernel: call budget exhausted (the operation keeps issuing system calls)");
+    }
     let ret: usize;
     if mode & MODE_FDS != 0 && creates_fd(n) {
         let fail = choose(3) != 0;
@@ -475,6 +492,15 @@ pub unsafe fn dispatch(n: usize, args: [usize; 7], nargs: u8) -> usize {
         ret = choose_zero_or_err();
     } else {
         ret = choose(0);
+        if mode & MODE_FILL_OUT != 0 && (n == nr::PIPE2 || n == nr::PIPE) && !is_err(ret) {
+            let out = args[0] as *mut i32;
+            let a = choose(5) as i32;
+            let b = choose(5) as i32;
+            #[cfg(kani)]
+            kani::assume(a >= 0 && b >= 0);
+            *out = a;
+            *out.add(1) = b;
+        }
     }
     record(n, args, nargs, ret);
     ret
